@@ -1019,6 +1019,14 @@ ADDENDA = {
            "evaluated from their real defining expressions under it (UTC_ZERO is the epoch whatever that offset); the native table runs in four "
            "process zones.",
 }
+ADDENDA["C35"] = ADDENDA.get("C35", "") + (" The contracts of the event-loop run loop (evloop.py: the timed wait is until the head is due by a clock reading of the section "
+                                          "that waits) are re-proved inside this check; the native table drives the real run loop on one thread under a controlled clock.")
+ADDENDA["C32"] = ADDENDA.get("C32", "") + (" Every critical section of run() is checked against the runner's guarantee where the lock is released (the queue loses at most its "
+                                          "head; the list object producers append to is replaced only together with the fault latch).")
+ADDENDA["C33"] = ADDENDA.get("C33", "") + " Every dispose scenario is also run with the loop started / stopped between the schedule call and dispose()."
+for _p in ("C28", "C29"):
+    ADDENDA[_p] = ADDENDA.get(_p, "") + (" start / advance_to / advance_by called from inside an action (a run is in progress) change nothing: still enabled, clock and queue "
+                                        "untouched, nothing run by the nested call.")
 for _p in ("C28", "C29", "C33", "C42"):
     ADDENDA[_p] = ADDENDA.get(_p, "") + _SCHED_CALLEES + "."
 for _p in ("C30", "C31", "C34", "C35"):
